@@ -571,7 +571,7 @@ class Check(core.PropertyCheck):
         for m in models[:2]:
             g = m.graph
             behs = g.edge_cover(ctx.rng, max_len=40, tail=5)
-            behs += g.random_walks(ctx.rng, 800 if ctx.quick else 8000, 30)
+            behs += g.random_walks(ctx.rng, 400 if ctx.quick else 8000, 30)
             for b in behs:
                 yield self._mk(m.constants, b, ctx.rng, "model")
         if not ctx.quick:
